@@ -127,6 +127,9 @@ bool all_others_done();
 // true if every other live thread is blocked without a timeout (so nothing
 // but the caller can ever wake it)
 bool others_blocked_forever();
+// Virtual time the calling thread has spent blocked (futex/condvar waits and
+// sleeps, counted until it became runnable again, not until it actually ran).
+int64_t my_blocked_ns();
 // Scheduling points executed by the calling thread so far.
 uint64_t my_points();
 // Arm a per-thread deadline probe: points_since_deadline() later returns how
